@@ -228,6 +228,10 @@ def job_c17(clsname, seed, count, replay_calls=None):
     lines = gensurface.to_text(surf)
     table, ok, wf = model_table(lines)
     cmds = [c for c in table if c != "until-closed"]
+    conv_fails = [{"what": "a parameter's conversion differs from what its annotation calls for "
+                           "(callables by dotted path, argument containers as Python literals)",
+                   "member": m, "parameter": pn, "by_annotation": a, "by_code": b}
+                  for m, pn, a, b in gensurface.conv_disagreements(cls)]
     if replay_calls is not None:
         calls = replay_calls
     else:
@@ -302,8 +306,8 @@ def job_c17(clsname, seed, count, replay_calls=None):
 
     with ctrlrun.captured_std() as (so, se):
         ctrlrun.run(go())
-    return [{"id": f"c17-{clsname}-{seed}", "class": clsname, "fails": fails, "checks": n_checks,
-             "calls": calls, "hist": dict(hist), "samples": samples}]
+    return [{"id": f"c17-{clsname}-{seed}", "class": clsname, "fails": conv_fails[:1] + fails,
+             "checks": n_checks + 1, "calls": calls, "hist": dict(hist), "samples": samples}]
 
 
 # ---------------------------------------------------------------------------------- C18
@@ -342,6 +346,8 @@ def draw_line(rng, table):
         return " ".join(shape)
     if x < 0.66:     # help requests
         return rng.choice(cmds + [""]) + " " + rng.choice(["-h", "--help"])
+    if x < 0.675:    # a reply far longer than one network read of the client (SESSION_MSG_BYTES)
+        return rng.choice(["\\" * 51300, "cancel " + " ".join(["7"] * 30000) + " x"])
     if x < 0.74:     # arbitrary printable text
         n = rng.randint(1, 40)
         return "".join(rng.choice("abcXYZ019 -_=.,;:'\"()[]{}<>!?@#$%^&*+/\\|~`") for _ in range(n)).strip() or "x"
